@@ -30,6 +30,19 @@ CHECKS = {
         "the golden corpus as the authority for per-type encodings.",
         "DESIGN.md 4/C02",
     ),
+    "C03": (
+        "exploration",
+        "bounded-exhaustive + random write-history generation (1-3 writers, binary and JSON), invariant over the "
+        "produced frame/line sequence plus read-back",
+        "All write histories up to length 4 over a 7-entry descriptor pool (same-name pair, identifier-colliding "
+        "pair, nested-only holder, grouped, field-less) on one writer and up to length 3 on two writers are "
+        "enumerated for the binary and the JSON writer; longer random histories use generated pools. The emitted "
+        "stream is parsed independently and every record, nested record and grouped member must be preceded in its "
+        "own stream by its exact descriptor; the reader must return each record with its original descriptor.",
+        "32-bit hash collisions between unrelated names are not searched (only structural collisions are "
+        "constructed). One listed known finding (a grouped record whose own members collide).",
+        "DESIGN.md 4/C03",
+    ),
 }
 
 NOT_APPLICABLE = {}
